@@ -200,28 +200,33 @@ func downloadAndExtractArchive(url, destDir, description string) error {
 		return fmt.Errorf("failed to download %s from %s: %w", description, url, err)
 	}
 
-	// Extract the archive
+	// Extract the archive into a directory of its own: an entry may carry the
+	// archive's file name, and the archive is not part of the extracted tree.
+	treeDir := filepath.Join(tempDir, "tree")
+	if err := os.MkdirAll(treeDir, 0755); err != nil {
+		return fmt.Errorf("failed to create temporary directory: %w", err)
+	}
 	fmt.Fprintf(os.Stderr, "Extracting %s...\n", description)
 	if strings.HasSuffix(filename, ".tar.gz") || strings.HasSuffix(filename, ".tgz") {
-		err := extractTarGz(localFile, tempDir)
+		err := extractTarGz(localFile, treeDir)
 		if err != nil {
 			return fmt.Errorf("failed to extract %s archive: %w", description, err)
 		}
 	} else if strings.HasSuffix(filename, ".tar.xz") {
-		err := extractTarXz(localFile, tempDir)
+		err := extractTarXz(localFile, treeDir)
 		if err != nil {
 			return fmt.Errorf("failed to extract %s archive: %w", description, err)
 		}
 	} else if strings.HasSuffix(filename, ".zip") {
-		err := extractZip(localFile, tempDir)
+		err := extractZip(localFile, treeDir)
 		if err != nil {
 			return fmt.Errorf("failed to extract %s archive: %w", description, err)
 		}
 	} else {
 		return fmt.Errorf("unsupported archive format: %s", filename)
 	}
-	// Rename temp directory to target directory
-	if err := os.Rename(tempDir, destDir); err != nil {
+	// Rename the extracted tree to the target directory
+	if err := os.Rename(treeDir, destDir); err != nil {
 		return fmt.Errorf("failed to rename directory: %w", err)
 	}
 
